@@ -101,6 +101,39 @@ def check(case, rec):
                     raise Violation("%s: cell values changed" % what, sig="C05 values changed (%s)" % case["agg"])
                 if len(populated) >= 2 and v in populated and v != commons[d]:
                     rec.nontrivial(key=[case, d, v, label])
+    # the same re-encoding done IN PLACE on the dimensions of a cube object that is kept and evaluated again
+    if explicit:
+        from catii import ccube
+
+        held_idx = [ix.copy() for ix in base_idx]
+        held = ccube(held_idx, shape_arg)
+
+        def held_eval():
+            farg, warg, _, _, _, _ = c03.expected(dict(case, shape_mode="exact"), dense, Q.exact_shape(case, dense))
+            res = Q.call_agg(held, case["agg"], farg, warg, case["ignore"], case["rma"])
+            return Q.normalise(res, case["rma"], "ccube." + case["agg"])
+
+        for d in range(nd):
+            if held_idx[d].ndim > 2:
+                continue
+            for v in sorted({0, ext[d] - 1, ext[d]} & set(range(ext[d] + 1))):
+                what = "ccube.%s on a kept cube after dims[%d].shift_common(%d) in place" % (case["agg"], d, v)
+                with libcall(what):
+                    held_idx[d].shift_common(v)
+                    gv, gm = held_eval()
+                rec.evaluations += 1
+                if gv.shape != bv.shape or (gm is not None and not numpy.array_equal(gm, bm)):
+                    raise Violation("%s: missing cells / shape changed" % what,
+                                    sig="C05 kept cube, missing cells changed (%s)" % case["agg"])
+                sel = numpy.ones(gv.shape, dtype=bool) if gm is None else ~gm
+                if not numpy.all(numpy.abs(gv[sel] - bv[sel]) <= tol + 1e-12 * numpy.abs(bv[sel])):
+                    raise Violation("%s: cell values changed" % what, sig="C05 kept cube, values changed (%s)" % case["agg"])
+            with libcall("shift_common() in place"):
+                held_idx[d].shift_common()
+                gv, gm = held_eval()
+            if gm is not None and not numpy.array_equal(gm, bm):
+                raise Violation("ccube.%s on a kept cube after re-normalising dims[%d] in place: missing cells changed"
+                                % (case["agg"], d), sig="C05 kept cube, missing cells changed (%s)" % case["agg"])
     rec.note("agg=" + case["agg"], "nd=%d" % nd, "shape=" + case["shape_mode"])
 
 
